@@ -21,7 +21,7 @@ func (s srcPlan) slots() certSlots {
 	cs := certSlots{NCRL: len(s.C), Freshest: s.Freshest, CRLKinds: s.CKinds}
 	for _, b := range s.O {
 		switch b.Kind {
-		case "badurl", "scheme":
+		case "badurl", "scheme", "emptyurl", "blankurl":
 			cs.OCSP = append(cs.OCSP, b.Kind)
 		default:
 			cs.OCSP = append(cs.OCSP, "ok")
